@@ -73,22 +73,23 @@ def _range_generators(ctx):
             if isinstance(c.func, ast.Attribute) and isinstance(c.func.value, ast.Name) and c.func.value.id in ("self", "cls", "Syntax"):
                 return c.func.attr
         return None
-    ts = None
+    cands = []
     for c in ast.walk(f.node):
         if isinstance(c, ast.Call) and isinstance(c.func, ast.Attribute) and c.func.attr == "append_tokens" and len(c.args) == 1:
             cand = lookup(callee_name(c.args[0]) or "")
-            if cand is not None and cand.is_generator:
-                ts = cand
-    if ts is None:
+            if cand is not None and cand.is_generator and cand not in cands:
+                cands.append(cand)
+    if not cands:
         raise AnchorVanished("Syntax.highlight: no generator is handed to text.append_tokens on the ranged path (tokens_to_spans not found)")
-    lt = None
-    for c in ast.walk(ts.node):
-        if isinstance(c, ast.Call):
-            cand = lookup(callee_name(c) or "")
-            if cand is not None and cand is not ts and cand.is_generator:
-                lt = cand
+    ts = lt = None
+    for cand_ts in cands:
+        for c in ast.walk(cand_ts.node):
+            if isinstance(c, ast.Call):
+                cand = lookup(callee_name(c) or "")
+                if cand is not None and cand is not cand_ts and cand.is_generator:
+                    ts, lt = cand_ts, cand
     if lt is None:
-        raise AnchorVanished(f"{ts.fq}: the generator that splits tokens per line (line_tokenize) was not found")
+        raise AnchorVanished(f"{cands[-1].fq}: the generator that splits tokens per line (line_tokenize) was not found")
     return ts, lt
 
 
@@ -597,4 +598,76 @@ def r17_10(ctx):
             ctx.violation(f.fq, short(x), where, "the re-split also runs when the range selects no line: joining nothing gives '' and ''.split gives one line, so a range beyond the end of the code shows one numbered blank line - Syntax('a\\n', 'python', line_numbers=True, line_range=(7, 9), indent_guides=True) prints line 7")
 
 
-RULES = [r17_1, r17_2, r17_3, r17_4, r17_5, r17_7, r17_8, r17_9, r17_10]
+_PYGMENTS_LOOKUPS = ("guess_lexer_for_filename", "get_lexer_by_name", "get_lexer_for_filename", "guess_lexer", "find_lexer_class_by_name")
+_CATCHES_CNF = ("ClassNotFound", "ValueError", "Exception", "BaseException")
+
+
+def r17_11(ctx):
+    ctx.rule("R17.11", "a frame whose file was read shows its source: the pygments lexer look-ups (guess_lexer_for_filename, get_lexer_by_name ..) raise ClassNotFound for a file name / lexer name nobody claims; in traceback.py and syntax.py each such call is answered where it is made - a handler for ClassNotFound that supplies a fall-back lexer or the plain code - and does not escape into the handler of Traceback._render_stack that also covers unreadable files and prints the error text in place of the source lines")
+    n = 0
+    for ms in ("traceback", "syntax"):
+        m = ctx.repo.mod(ms)
+        for f in m.functions.values():
+            for c in walk_local(f.node):
+                if not (isinstance(c, ast.Call) and isinstance(c.func, ast.Name) and c.func.id in _PYGMENTS_LOOKUPS):
+                    continue
+                n += 1
+                where = f"{m.relpath}:{c.lineno}"
+                # enclosing handlers inside the same function
+                cur, prev = m.parent_of.get(c), c
+                local = None
+                while cur is not None and cur is not f.node:
+                    if isinstance(cur, ast.Try) and any(prev is b or prev in list(ast.walk(b)) for b in cur.body):
+                        for h in cur.handlers:
+                            names = [norm(h.type)] if h.type is not None and not isinstance(h.type, ast.Tuple) else ([norm(e) for e in h.type.elts] if h.type is not None else ["BaseException"])
+                            if any(nm.split(".")[-1] in _CATCHES_CNF for nm in names):
+                                local = (cur, h)
+                                break
+                        if local:
+                            break
+                    prev = cur
+                    cur = m.parent_of.get(cur)
+                if local is not None:
+                    tr, h = local
+                    # the handler must not re-raise and must not be the frame-level handler that prints the error instead of the code
+                    reraises = any(isinstance(x, ast.Raise) for b in h.body for x in ast.walk(b))
+                    prints_error = h.name is not None and any(isinstance(x, ast.FormattedValue) and isinstance(x.value, ast.Name) and x.value.id == h.name for b in h.body for x in ast.walk(b))
+                    if reraises or prints_error:
+                        ctx.violation(f.fq, short(c), where, f"`{short(c)}` can raise ClassNotFound and the handler around it {'re-raises' if reraises else 'prints the error text in place of the code'}: a readable source file with an unknown extension is not shown")
+                    else:
+                        ctx.ok(where, f"`{c.func.id}` is answered by a local handler with a fall-back", f.fq)
+                    continue
+                # unprotected in f: look at the call sites of f in the module
+                sites = []
+                for g in m.functions.values():
+                    for c2 in walk_local(g.node):
+                        if isinstance(c2, ast.Call) and ((isinstance(c2.func, ast.Attribute) and c2.func.attr == f.node.name and isinstance(c2.func.value, ast.Name) and c2.func.value.id in ("self", "cls", f.cls.name if f.cls else "")) or (isinstance(c2.func, ast.Name) and c2.func.id == f.node.name and f.cls is None)):
+                            sites.append((g, c2))
+                if not sites:
+                    ctx.violation(f.fq, short(c), where, f"`{short(c)}` can raise ClassNotFound (no lexer for the name) and nothing in {f.qualname} answers it")
+                    continue
+                for g, c2 in sites:
+                    cur, prev = m.parent_of.get(c2), c2
+                    verdict = None
+                    while cur is not None and cur is not g.node:
+                        if isinstance(cur, ast.Try) and any(prev is b or prev in list(ast.walk(b)) for b in cur.body):
+                            for h in cur.handlers:
+                                names = [norm(h.type)] if h.type is not None and not isinstance(h.type, ast.Tuple) else ([norm(e) for e in h.type.elts] if h.type is not None else ["BaseException"])
+                                if any(nm.split(".")[-1] in _CATCHES_CNF for nm in names):
+                                    prints_error = h.name is not None and any(isinstance(x, ast.FormattedValue) and isinstance(x.value, ast.Name) and x.value.id == h.name for b in h.body for x in ast.walk(b))
+                                    shares_read = any(isinstance(x, ast.Call) and call_name(x) in ("read_code", "open", "read") for b in cur.body for x in ast.walk(b))
+                                    verdict = "bad" if (prints_error or shares_read) else "ok"
+                                    break
+                            if verdict:
+                                break
+                        prev = cur
+                        cur = m.parent_of.get(cur)
+                    w2 = f"{m.relpath}:{c2.lineno}"
+                    if verdict == "ok":
+                        ctx.ok(w2, f"the caller answers the lexer failure of {f.qualname} on its own", g.fq)
+                    else:
+                        ctx.violation(f.fq, short(c), where, f"`{short(c)}` raises ClassNotFound for a file name no lexer claims and {f.qualname} lets it escape; {g.qualname} (line {c2.lineno}) handles it together with unreadable files and shows the error text instead of the frame's source: a traceback through a readable file 'gen.foo' prints \"no lexer for filename 'gen.foo' found\" where its source lines belong")
+    ctx.floor(n, 3, "pygments lexer look-ups in traceback.py / syntax.py")
+
+
+RULES = [r17_1, r17_2, r17_3, r17_4, r17_5, r17_7, r17_8, r17_9, r17_10, r17_11]
